@@ -1,9 +1,9 @@
 #!/bin/sh
-# tools/seeded.sh <dir-with-patch.diff-and-demo.py> <PROP> [tier]
+# tools/seeded.sh <dir-with-patch.diff-and-demo.py> <PROP> [tier] [clause,clause..]
 # Confirms a seeded change (tests green, demo passes pristine / fails changed)
 # in a scratch copy of /repo HEAD under /tmp, runs the property's check against
 # it with VMC_SRC, prints a one-line verdict, and removes the scratch copy.
-d=$(cd "$1" && pwd); prop=$2; tier=${3:-quick}
+d=$(cd "$1" && pwd); prop=$2; tier=${3:-quick}; only=$4
 w=$(mktemp -d /tmp/vmc_seed_XXXXXX)
 git -C /repo archive HEAD | tar -x -C "$w" || exit 2
 base_demo=skip
@@ -18,7 +18,11 @@ mut_demo=skip
 if [ -f "$d/demo.py" ]; then
   (cd "$w" && PYTHONPATH="$w" /venv/bin/python "$d/demo.py" >/dev/null 2>&1); mut_demo=$?
 fi
-out=$(VMC_SRC="$w" VMC_JSONSCHEMA=0 VMC_NO_EVIDENCE=1 /verif/check "$prop" --tier "$tier" 2>&1); rc=$?
+if [ -n "$only" ]; then
+  out=$(VMC_SRC="$w" VMC_JSONSCHEMA=0 VMC_NO_EVIDENCE=1 /verif/check "$prop" --tier "$tier" --only "$only" 2>&1); rc=$?
+else
+  out=$(VMC_SRC="$w" VMC_JSONSCHEMA=0 VMC_NO_EVIDENCE=1 /verif/check "$prop" --tier "$tier" 2>&1); rc=$?
+fi
 nv=$(echo "$out" | grep -c '^VIOLATION')
 echo "SEEDED $prop $(basename "$(dirname "$d")")/$(basename "$d"): demo pristine=$base_demo changed=$mut_demo | tests: $tests | check rc=$rc violations_lines=$nv"
 echo "$out" | grep -E '^  violation' | head -3
